@@ -421,7 +421,13 @@ def _compress_tiles(
 
     src_data_name = data.name
 
+    ny_blocks, nx_blocks = (len(ch) for ch in data.chunks[src_ydim : src_ydim + 2])
+
     def block_name(s, y, x):
+        if y >= ny_blocks or x >= nx_blocks:
+            # tile lies wholly in the right/bottom padding of the COG: no source block, all fill
+            empty = tuple(0 if src_ydim <= i < src_ydim + 2 else n for i, n in enumerate(data.chunksize))
+            return (np.zeros, empty, data.dtype)
         if data.ndim == 2:
             return (src_data_name, y, x)
         if src_ydim == 0:
